@@ -30,6 +30,7 @@ typedef struct Node Node;
 typedef struct Member Member;
 typedef struct Relocation Relocation;
 typedef struct Hideset Hideset;
+typedef struct Scope Scope;
 
 //
 // strings.c
@@ -366,6 +367,7 @@ struct Type {
   // Function type
   Type *return_ty;
   Type *params;
+  Scope *scope; // of the parameter list
   bool is_variadic;
   Type *next;
 };
